@@ -1,6 +1,168 @@
 import EupsModel.Drv.Util
+import EupsModel.Model.Vro
+import EupsModel.Model.VroC10
 namespace EupsModel.Drv.C03
-open Lean EupsModel EupsModel.Drv
-/-- placeholder until the C03 model exists -/
-def handle : Handler := fun _ => throw "model C03 not built"
+open Lean EupsModel EupsModel.Drv EupsModel.Vro
+
+def strsOf (j : Json) : Except String (List Str) := do
+  (← j.getArr?).toList.mapM fun v => do pure (Str.ofString (← v.getStr?))
+
+def stackOfJson (j : Json) : Except String Stack := do
+  let decls ← (← jarr j "decls").mapM fun d => do
+    match ← strsOf d with
+    | [n, v, f] => pure (⟨n, v, f⟩ : Decl)
+    | _ => throw "decl: expected [name, version, flavor]"
+  let tags ← (← jarr j "tags").mapM fun d => do
+    match ← strsOf d with
+    | [t, n, f, v] => pure (⟨t, n, f, v⟩ : TagRec)
+    | _ => throw "tag: expected [tag, name, flavor, version]"
+  pure ⟨decls, tags⟩
+
+def modeOf : String → Except String Mode
+  | "files" => pure .files
+  | "cache" => pure .cache
+  | "mixed" => pure .mixed
+  | s => throw s!"unknown mode {s}"
+
+def ctxOfJson (j : Json) : Except String Ctx := do
+  let db ← (← jarr j "db").mapM stackOfJson
+  let mode ← modeOf (← (← j.getObjVal? "mode").getStr?)
+  let accepted ← (← jarr j "accepted").mapM fun b => b.getBool?
+  pure (mkCtx c10Ord (← jstrs j "globalTags") db mode (← jstrs j "loaded") accepted)
+
+/-- the guard of `Model/VroC10.lean`: the comparator accepts every declared version name and can
+evaluate every expression of the request on it; otherwise the model does not answer -/
+def guardOk (j : Json) (exprs : List (Option Str)) : Except String Bool := do
+  let db ← (← jarr j "db").mapM stackOfJson
+  let xs := exprs.filterMap fun x =>
+    match x with
+    | some v => (match isExpr v with | .ok true => some v | _ => none)
+    | none => none
+  pure (namesOk db xs)
+
+def unsupportedAns : Json := Json.mkObj [("out", "err"), ("err", "unsupported")]
+
+def reqOfJson (j : Json) : Except String Req := do
+  let already ← (match j.getObjVal? "already" with
+    | .ok Json.null => pure none
+    | .error _ => pure none
+    | .ok a => do
+      pure (some (⟨← jstr a "version", ← jstr a "flavor", ← jnat a "stack"⟩, ← jstrOpt a "reason")) :
+      Except String (Option (Prod × Option Str)))
+  pure { name := ← jstr j "name", version := ← jstrOpt j "version", vexpr := ← jstrOpt j "vexpr",
+         depth := ← jnat j "depth", flavor := ← jstr j "flavor", ignoreVersions := ← jbool j "ignore",
+         already := already }
+
+def errName : Err → String
+  | .badExpr => "badExpr" | .indexError => "indexError" | .typeError => "typeError"
+  | .valueError => "valueError" | .unboundLocal => "unboundLocal" | .runtimeError => "runtimeError"
+  | .keyError => "keyError" | .outOfFuel => "outOfFuel" | .unsupported => "unsupported"
+
+def hitToJson : Option Hit → Json
+  | none => Json.null
+  | some h => Json.mkObj [("version", ofStr h.prod.version), ("flavor", ofStr h.prod.flavor),
+      ("stack", (h.prod.stack : Nat)), ("reason", ofStr h.reason), ("entry", ofStr h.entry)]
+
+def answer (r : Except Err (Option Hit)) : Json :=
+  match r with
+  | .ok h => Json.mkObj [("out", "ok"), ("hit", hitToJson h)]
+  | .error e => Json.mkObj [("out", "err"), ("err", errName e)]
+
+def vroValOf (j : Json) : Except String VroVal :=
+  match j with
+  | Json.arr _ => do pure (.flat (← strsOf j))
+  | _ => do
+    let o ← j.getObj?
+    pure (.byDbz (← o.toList.mapM fun (k, v) => do pure (Str.ofString k, ← strsOf v)))
+
+/-- dictionaries arrive as arrays of `[key, value]` pairs so that the order is the caller's -/
+def pairsOf (j : Json) (k : String) : Except String (List (Str × Json)) := do
+  (← jarr j k).mapM fun p => do
+    match (← p.getArr?).toList with
+    | [a, b] => pure (Str.ofString (← a.getStr?), b)
+    | _ => throw "expected [key, value]"
+
+def cfgOfJson (j : Json) : Except String VroCfg := do
+  let dict ← (← pairsOf j "vroDict").mapM fun (k, v) => do
+    match v with
+    | Json.arr a =>
+      match a.toList with
+      | (Json.arr _) :: _ => do
+        let d ← a.toList.mapM fun p => do
+          match (← p.getArr?).toList with
+          | [x, y] => pure (Str.ofString (← x.getStr?), ← strsOf y)
+          | _ => throw "expected [dbz, vro]"
+        pure (k, VroVal.byDbz d)
+      | _ => do pure (k, VroVal.flat (← strsOf v))
+    | _ => throw "vroDict value"
+  pure { vroDict := dict, userVRO := ← jbool j "userVRO", keep := ← jbool j "keep", exact := ← jbool j "exact",
+         globalTags := ← jstrs j "globalTags", cmdTags := ← jstrs j "cmdTags",
+         prevPreferred := ← jstrs j "prevPreferred" }
+
+def argsOfJson (j : Json) : Except String VroArgs := do
+  pure { tags := ← jstrs j "tags", productDir := ← jbool j "productDir", versionName := ← jbool j "versionName",
+         dbz := ← jstrOpt j "dbz", inexact := ← jbool j "inexact", postTags := ← jstrs j "postTags" }
+
+/-- `{"m":"c03","op":...}`:
+* `find`      ctx fields + `req`, `vro`                     -> `findProductFromVRO`
+* `resolve`   ctx fields + `req`, `vro`, `keep`, `flavors`  -> the flavor loop of `Eups.setup`
+* `selectVRO` `cfg`, `args`                                 -> the VRO list and the exact flag
+* `cmp` / `match`                                           -> the local order used for the runs -/
+def handle : Handler := fun j => do
+  let op ← (← j.getObjVal? "op").getStr?
+  match op with
+  | "find" =>
+    let C ← ctxOfJson j
+    let r ← reqOfJson (← j.getObjVal? "req")
+    if !(← guardOk j [r.version, r.vexpr]) then return unsupportedAns
+    pure (answer (find C r (← jstrs j "vro")))
+  | "resolve" =>
+    let C ← ctxOfJson j
+    let r ← reqOfJson (← j.getObjVal? "req")
+    if !(← guardOk j [r.version, r.vexpr]) then return unsupportedAns
+    pure (answer (resolve C r (← jbool j "keep") (← jstrs j "vro") (← jstrs j "flavors")))
+  | "selectVRO" | "selectVROTwice" =>
+    match (if op == "selectVRO" then selectVRO else selectVROTwice) (← cfgOfJson (← j.getObjVal? "cfg")) (← argsOfJson (← j.getObjVal? "args")) with
+    | .ok o => pure (Json.mkObj [("out", "ok"), ("vro", ofStrs o.vro), ("exact", o.exact)])
+    | .error e => pure (Json.mkObj [("out", "err"), ("err", errName e)])
+  | "tableLineVro" =>
+    let lv ← (match j.getObjVal? "lineVro" with
+      | .ok Json.null => pure none
+      | .error _ => pure none
+      | .ok v => do pure (some (← strsOf v)) : Except String (Option (List Str)))
+    pure (Json.mkObj [("vro", ofStrs (tableLineVro (← jstrs j "vro") lv (← jstrs j "lineTags") (← jbool j "lineKeep")))])
+  | "runTable" =>
+    let C ← ctxOfJson j
+    let lines ← (← jarr j "lines").mapM fun l => do
+      let lv ← (match l.getObjVal? "lineVro" with
+        | .ok Json.null => pure none
+        | .error _ => pure none
+        | .ok v => do pure (some (← strsOf v)) : Except String (Option (List Str)))
+      let already ← (match l.getObjVal? "already" with
+        | .ok Json.null => pure none
+        | .error _ => pure none
+        | .ok a => do
+          pure (some (⟨← jstr a "version", ← jstr a "flavor", ← jnat a "stack"⟩, ← jstrOpt a "reason")) :
+          Except String (Option (Prod × Option Str)))
+      pure ({ name := ← jstr l "name", version := ← jstrOpt l "version", vexpr := ← jstrOpt l "vexpr",
+              lineVro := lv, lineTags := ← jstrs l "lineTags", lineKeep := ← jbool l "lineKeep",
+              optional := ← jbool l "optional", already := already } : TableLine)
+    if !(← guardOk j (lines.flatMap fun l => [l.version, l.vexpr])) then return unsupportedAns
+    let r := runTable C (← jbool j "keep") (← jstrs j "flavors") (← jstrs j "vro") lines
+    let outJ := r.outs.map fun o => match o with
+      | .setUp h => hitToJson (some h)
+      | .failed => Json.null
+    pure (Json.mkObj [("outs", Json.arr outJ.toArray), ("raised", r.raised), ("vro", ofStrs r.vro)])
+  | "cmp" =>
+    let a ← jstr j "a"
+    let b ← jstr j "b"
+    pure (Json.mkObj [("cmp", (c10Cmp a b : Int)), ("simple", (simpleCmp a b : Int)),
+      ("conv", VersionCmp.convName a && VersionCmp.convName b)])
+  | "match" =>
+    let v ← jstr j "v"
+    let x ← jstr j "x"
+    pure (Json.mkObj [("match", c10Match v x), ("simple", simpleMatch v x),
+      ("ok", match VersionCmp.versionMatch v x with | .ok _ => true | .error _ => false)])
+  | _ => throw s!"unknown op {op}"
+
 end EupsModel.Drv.C03
